@@ -196,6 +196,11 @@ func SetHardCap(n uint64) { hardCap = n }
 //go:norace
 func CapHit() bool { return capHit }
 
+// ClearCapHit re-arms the step cap.
+//
+//go:norace
+func ClearCapHit() { capHit = false }
+
 //go:norace
 func curTask() *task {
 	if mode == ModeSched {
